@@ -62,8 +62,12 @@ def r25_2(ctx):
                 ctx.finding(rr, site(f, n), f"index is rebound to {v}: the written region is no longer the block slice composed with the requested region", func=f, node=n)
             else:
                 g = cfg.guards(n)
-                want = {"fuse_slice(region, index)": [("region", True), ("index", True)], "region": [("region", True), ("index", False)]}[v]
-                have = [(unparse(t), pol) for t, pol in g]
+                want = {"fuse_slice(region, index)": {("region", True), ("index", True)}, "region": {("region", True), ("index", False)}}[v]
+                have = set()
+                for t, pol in g:
+                    while isinstance(t, ast.UnaryOp) and isinstance(t.op, ast.Not):
+                        t, pol = t.operand, (not pol)
+                    have.add((unparse(t), pol))
                 if have != want:
                     ctx.finding(rr, site(f, n), f"index = {v} happens under {have}, expected {want}", func=f, node=n)
     lc = m.func("load_chunk")
